@@ -48,6 +48,8 @@ type Ctx struct {
 	// dtCalcOK: R03.9 followed dtCalc for every ordering of the year against the knots without a deviation (and
 	// without a read outside the table); dtCalcRun: it has run
 	dtCalcOK, dtCalcRun bool
+	// xunOK: R18.6 followed GetXunIndex for all sixty pillars and found the decade every time; xunRun: it has run
+	xunOK, xunRun bool
 	// starTableOK: the star accessors R16.5 followed over their whole input domain without a deviation (every
 	// value it states is an index 0..8); nil until R16.5 has run on this tree
 	starTableOK map[*ssa.Function]bool
